@@ -351,7 +351,13 @@ func (p c20) Gen(t *rapid.T, env *Env) (*Case, []*Out) {
 		}
 	}
 	c.Meta, _ = json.Marshal(meta)
-	env.sampleChecks(w, c.Runs[len(c.Runs)-1].Spec.Args[len(w.Opts.Argv(nil)):], c)
+	fw := w
+	if respelled {
+		// KF-C20-6: in these worlds the untouched binary itself is not deterministic (which of the two outputs of one
+		// file survives follows the run-time map order), so there is nothing to compare the simulation with
+		fw = nil
+	}
+	env.sampleChecks(fw, c.Runs[len(c.Runs)-1].Spec.Args[len(w.Opts.Argv(nil)):], c)
 	return c, outs
 }
 
